@@ -972,6 +972,76 @@ pub fn play_big_response(r: &mut Report, lab: &dyn Lab, rng: &mut Rng, id: &str,
     let _ = lab.take_log(&format!("{}.", id));
 }
 
+/// A connection that has to wait for a worker: every worker of the pool is held by an idle keep-alive connection, one
+/// more client sends its request and stays queued for 400 ms (well beyond the pool's 100 ms overload threshold); when a
+/// worker becomes free the queued request is answered like any other. Threaded runtime only (`pool() > 0`).
+pub fn play_queued_connection(r: &mut Report, lab: &dyn Lab, id: &str, replay: &[String]) {
+    let n = lab.pool();
+    if n == 0 || n > 8 || is_dead(lab.addr()) {
+        return;
+    }
+    r.eval();
+    let mk = |xid: String, ka: bool| ReqSpec { xid, method: "GET", target: Target::R(7), conn: Some(if ka { "keep-alive" } else { "close" }.into()), version: "HTTP/1.1", body: None };
+    let mut parkers: Vec<Conn> = Vec::new();
+    for k in 0..n {
+        let q = mk(format!("{}k{}.0", id, k), true);
+        let mut c = match Conn::open(lab.addr()) {
+            Ok(c) => c,
+            Err(e) => {
+                r.inconclusive(format!("cannot connect to the lab app: {}", e));
+                return;
+            }
+        };
+        if c.send(&q.render(), &[], 0).is_err() || !matches!(c.read_response(Duration::from_secs(10)), Ok(Some(_))) {
+            // other plays judge plain requests; here an unanswered parker only means the scenario cannot be set up
+            r.count("queued_connection_rounds_not_set_up", 1);
+            return;
+        }
+        eat_body_crlf(&mut c);
+        parkers.push(c);
+    }
+    let q = mk(format!("{}q.0", id), false);
+    let exp = q.expected().unwrap();
+    let ex = J::obj(vec![("pool", J::u(n as u64)), ("idle_keep_alive_connections_holding_workers", J::u(n as u64)), ("queued_ms", J::u(400)), ("runtime", J::s(lab.runtime()))]);
+    let mut c = match Conn::open(lab.addr()) {
+        Ok(c) => c,
+        Err(e) => {
+            r.inconclusive(format!("cannot connect to the lab app: {}", e));
+            return;
+        }
+    };
+    if c.send(&q.render(), &[], 0).is_err() {
+        r.count("queued_connection_rounds_not_set_up", 1);
+        return;
+    }
+    std::thread::sleep(Duration::from_millis(400));
+    // free one worker: its client hangs up
+    drop(parkers.pop());
+    let what = format!("[{}] request sent on a connection that waited 400 ms for a worker (pool of {}, all held by idle keep-alive connections)", lab.runtime(), n);
+    match c.read_response(Duration::from_secs(10)) {
+        Ok(Some(m)) => {
+            let probs = judge_response(&q, &exp, &m);
+            if probs.is_empty() {
+                r.count("queued_connections_answered", 1);
+            }
+            for (k, w) in probs {
+                r.violation(&format!("C01/queued-connection:response:{}", k), format!("{}: {}", what, w), ex.clone(), replay.to_vec());
+            }
+        }
+        Ok(None) => {
+            if c.eof || c.reset {
+                r.violation("C01/queued-connection:dropped", format!("{}: the connection was closed without a response (eof={}, reset={})", what, c.eof, c.reset), ex, replay.to_vec());
+            } else {
+                silence(r, lab, lab.addr(), "no response to a queued connection within 10 s after a worker became free", replay);
+            }
+        }
+        Err(e) => r.violation("C01/response-malformed", format!("{}: {}", what, e.chars().take(160).collect::<String>()), ex, replay.to_vec()),
+    }
+    drop(parkers);
+    let _ = lab.take_log(&format!("{}k", id));
+    let _ = lab.take_log(&format!("{}q.", id));
+}
+
 pub fn fingerprint(s: &Script) -> u64 {
     let mut v = Vec::new();
     for q in &s.reqs {
@@ -1047,6 +1117,9 @@ pub fn run_all(r: &mut Report, lab: &dyn Lab, seed: u64, shard: usize, nshards: 
         }
         if k % 50 == 27 {
             play_big_response(r, lab, &mut rng, &format!("{}c", id), true, &replay);
+        }
+        if k % 40 == 13 {
+            play_queued_connection(r, lab, &format!("{}g", id), &replay);
         }
         k += nshards as u64;
     }
